@@ -13,7 +13,7 @@ T = {
          "model hash LinHash (equalities only; a deviation is found when some input distinguishes it), toy DH group; info/psk/psk_id/exporter context <= 2 B, export 3 B; conformance of sha2/aes-gcm/chacha20poly1305/curve crates themselves assumed; RFC-valid PSK inputs only"),
  "C03": ("bounded model checking (Kani/CBMC/SAT): real impl_dhkem!/gen_keypair/derive_keypair code over a model group vs RFC 9180 section 4.1/7.1.3 transcription",
          "Encap/Decap/AuthEncap/AuthDecap of the real macro body equal the RFC for all 2^48 toy key triples incl. both DH-failure paths; DeriveKeyPair labels/lengths for ikm 0..=4 B; gen_keypair == derive_keypair(Nsk bytes drawn) and the real KEMs request exactly Nsk bytes (32/32/48/66).",
-         "pk(sk)/DH on the real curves for symbolic keys are not decided (curve arithmetic out of reach); the NIST candidate loop is decided on the real DhP256/DhP384 code with the hash as an arbitrary (scripted) function (P-521 in the thorough tier); model hash LinHash elsewhere"),
+         "pk(sk)/DH on the real curves for symbolic keys are not decided (curve arithmetic out of reach); the NIST candidate loop is decided on the real DhP256/DhP384 code with the hash as an arbitrary (scripted) function (the P-521 instance, the only one with a non-trivial bitmask, did not finish and is not claimed); model hash LinHash elsewhere"),
  "C04": ("bounded model checking (Kani/CBMC/SAT): one-step induction over an arbitrary context state with a spy AEAD",
          "From ANY (key, 96-bit base nonce, 64-bit seq, overflowed) the nonce handed to the AEAD is base XOR BE64(seq); counter +1 or latch exactly at 2^64-1; an exhausted context refuses forever without touching buffer or AEAD; mix_nonce injective in seq on the three real AEAD types; 3-step history. Covers all 2^64 sequence numbers, which no test can reach.",
          "AEAD replaced by a recording stub (hpke's behaviour does not depend on the AEAD's); plaintext <= 5 B, aad <= 3 B (hpke never branches on them)"),
